@@ -98,3 +98,5 @@ PROP = {'title': 'optional / either / variant combinators satisfy their algebrai
                  'what is left in an rvalue (&&) source after a call is never inspected; for rvalue sources the result-category cases '
                  'demand no identity with storage inside the source (except optional/either::to_exception, whose declared result T&& can '
                  'only be the held value)']}
+
+PROP['rule'] += " either::loop on long runs: 0, 1, 2, 16, 1000, 65536, 10^6 and 4*10^6 successes before the failure (result, number of body calls)."
